@@ -14,7 +14,7 @@ EXTENDS Naturals, Sequences, TLC, Json
 CONSTANTS MaxOps
 Slots == {"a", "b"}
 Ports == {"p", "q"}
-Idents == {"rootws", "userimds"}     \* (elevated root -> WireServer), (non-elevated user -> IMDS)
+Idents == {"rootws", "userimds", "rootdead"}   \* root -> WireServer, user -> IMDS, root -> a destination nobody listens on
 
 VARIABLES audit, conn, hist
 vars == <<audit, conn, hist>>
